@@ -401,6 +401,15 @@ class Connection(object):
                 self.__avail_tx_notls_pend = glib.idle_add(
                     self._avail_tx_notls)
 
+    def send_pending_size(self):
+        ''' Get the number of octets taken by :py:meth:`send_raw` but not
+        yet written to the socket.
+
+        :return: The buffer use (octets).
+        :rtype: int
+        '''
+        return len(self.__tx_buf)
+
     def send_raw(self, size):
         ''' Obtain a block of data to send.
         Derived classes must overload this method to return TX data.
@@ -534,7 +543,11 @@ class Messenger(Connection):
 
         :return: True if there are no data being processed RX or TX side.
         '''
-        return len(self.__rx_buf) == 0 and len(self.__tx_buf) == 0
+        return (
+            len(self.__rx_buf) == 0
+            and len(self.__tx_buf) == 0
+            and self.send_pending_size() == 0
+        )
 
     def set_on_session_start(self, func):
         ''' Set a callback to be run when this session is started.
